@@ -183,6 +183,22 @@ def gen_history(rng):
     return dict(obs=obs, calls=calls)
 
 
+def directed_histories(rng):
+    """argument forms on their boundary values, in every run whatever the seed: the first scan / compound scan by its
+    bare index 0 (alone, ANDed onto a selection, next to another time criterion), the last one by -1"""
+    out = []
+    for key in ('scans', 'compscans'):
+        for idx, form in ((0, 'single'), (0, 'list'), (-1, 'single')):
+            obs = stubds.gen_observation(rng)
+            crit = [key, 'items', {'items': [idx], 'as': form}]
+            calls = [dict(bare=False, crits=[crit], reset=None, extra={}),
+                     dict(bare=False, crits=[['dumps', 'index', gen_index(rng, obs['T'])]], reset=None, extra={}),
+                     dict(bare=False, crits=[crit], reset='', extra={}),
+                     dict(bare=False, crits=[crit, ['channels', 'index', gen_index(rng, obs['F'])]], reset=None, extra={})]
+            out.append(json.loads(json.dumps(dict(obs=obs, calls=calls))))
+    return out
+
+
 def proto_call(call, d, targets, obs):
     reset = call['reset']
     rs = 'auto' if reset is None or reset == 'auto' else ('-' if reset == '' else reset)
@@ -445,7 +461,7 @@ def spw_cases(ctx, n):
 def run(ctx):
     ctx.matchers.update(MATCHERS)
     build = common.build_and_audit('C02', ctx.tier)
-    hists = corpus() + [gen_history(ctx.rng) for _ in range(ctx.q(400, 20000))]
+    hists = corpus() + directed_histories(ctx.rng) + [gen_history(ctx.rng) for _ in range(ctx.q(400, 20000))]
     bad = evaluate(ctx, hists)
     bad += spw_cases(ctx, ctx.q(40, 1500))
     if not bad and not build['build_ok']:
